@@ -12,7 +12,7 @@
 EXTENDS FileFormat, SequencesExt, TLC
 CONSTANTS Names,     \* set of [id, nlen, b]: name identity, byte length, hash bucket
           MetaLens,  \* metadata lengths a file may be created with
-          Actors,    \* who performs an operation (does not influence the result)
+          Actors,    \* who performs an operation ("indx": an independent writer that stores unrounded limits)
           Incs,      \* increments
           MaxOps
 VARIABLES metaLen, hdrLen, size, limit, heads, recs,   \* the file
@@ -34,15 +34,18 @@ Cur == [size |-> size, limit |-> limit, heads |-> heads, recs |-> recs, want |->
 Bump(w, id, k) == [x \in DOMAIN w \cup {id} |-> IF x = id THEN (IF x \in DOMAIN w THEN w[x] ELSE 0) + k ELSE w[x]]
 Grown(sz, end) == IF end > sz THEN Up(end, Page) ELSE sz                 \* the file grows by whole pages
 (* name nm is used (k more): an existing record is incremented, otherwise a record is allocated and put at the head of its bucket *)
-AddF(f, nm, k) ==
+(* exact: the writer stores the exact end of the record (offset of the byte after the name) as the new limit instead *)
+(* of the end rounded to 32, as an independent implementation of the layout may                                      *)
+AddFx(f, nm, k, exact) ==
     IF \E r \in f.recs : r.id = nm.id
     THEN [f EXCEPT !.recs = {IF r.id = nm.id THEN [r EXCEPT !.val = @ + k] ELSE r : r \in f.recs}, !.want = Bump(f.want, nm.id, k)]
     ELSE LET pl == Place(hdrLen, f.limit, nm.nlen)
              hd == IF nm.b \in DOMAIN f.heads THEN f.heads[nm.b] ELSE 0
-         IN  [size  |-> Grown(f.size, pl[2]), limit |-> pl[2],
+         IN  [size  |-> Grown(f.size, pl[2]), limit |-> IF exact THEN pl[1] + RecHdr + nm.nlen ELSE pl[2],
               heads |-> [x \in DOMAIN f.heads \cup {nm.b} |-> IF x = nm.b THEN pl[1] ELSE f.heads[x]],
               recs  |-> f.recs \cup {[off |-> pl[1], nlen |-> nm.nlen, next |-> hd, id |-> nm.id, val |-> k, b |-> nm.b]},
               want  |-> Bump(f.want, nm.id, k)]
+AddF(f, nm, k) == AddFx(f, nm, k, FALSE)
 (* a writer that had already reserved and written its record for nm finds, when linking it, that nm has just been linked by *)
 (* someone else: its own record stays unlinked (dead, below the limit), the increment goes to the linked record              *)
 DeadF(f, nm, k) ==
@@ -52,10 +55,11 @@ DeadF(f, nm, k) ==
 Becomes(g) == /\ size' = g.size /\ limit' = g.limit /\ heads' = g.heads /\ recs' = g.recs /\ want' = g.want
               /\ UNCHANGED <<metaLen, hdrLen>>
 AddEff(nm, k) == Becomes(AddF(Cur, nm, k))
+AddEffx(nm, k, exact) == Becomes(AddFx(Cur, nm, k, exact))
 
 Create(m) == /\ hdrLen = 0 /\ CreateEff(m) /\ nops' = nops + 1
              /\ last' = [NoOp EXCEPT !.op = "create", !.m = m]
-Add(a, nm, k) == /\ hdrLen # 0 /\ nops < MaxOps /\ AddEff(nm, k) /\ nops' = nops + 1
+Add(a, nm, k) == /\ hdrLen # 0 /\ nops < MaxOps /\ AddEffx(nm, k, a = "indx") /\ nops' = nops + 1
                  /\ last' = [op |-> "add", a |-> a, id |-> nm.id, nlen |-> nm.nlen, b |-> nm.b, k |-> k, m |-> 0, x |-> 0]
 Reopen(a) == /\ hdrLen # 0 /\ nops < MaxOps /\ last.op # "reopen" /\ UNCHANGED <<file, want>> /\ nops' = nops + 1
              /\ last' = [NoOp EXCEPT !.op = "reopen", !.a = a]
@@ -81,7 +85,7 @@ Next == \/ \E m \in MetaLens : Create(m)
         \/ \E m \in MetaLens, nm \in Names : Alien(m, nm)
         \/ \E a \in Actors, nm \in Names, k \in Incs : Add(a, nm, k)
         \/ \E a \in Actors : Reopen(a)
-        \/ \E a \in Actors \ {"ind"}, nm \in Names : \E x \in {y \in Names : y.b = nm.b} : Race(a, nm, x, 1)
+        \/ \E a \in Actors \ {"ind", "indx"}, nm \in Names : \E x \in {y \in Names : y.b = nm.b} : Race(a, nm, x, 1)
 Spec == Init /\ [][Next]_vars
 
 (* the file in the vocabulary of FileFormat.tla *)
